@@ -1,12 +1,14 @@
 /- The driver's suites: one `step` function per harness suite. -/
 import KB.Driver.Util
+import KB.MemTTL
 namespace KB.Driver
 open KB
 
 structure SuiteState where
   cfg : Cfg := {}
   b : BState := { ring := Ring.new 16 }
-  eng : Store := []
+  /-- the engine suite's engine: the store with its ttl bookkeeping (KB.MemTTL; clock in milliseconds) -/
+  mem : MemTTL.State := {}
   ring : Ring := Ring.new 8
   dellog : List (Bool × Bytes) := []
   /-- the next range read / count / stream meets a transient engine error on its read of the compaction record -/
@@ -42,7 +44,7 @@ def initSuite (_suite : String) (opts : List (String × String)) : SuiteState :=
   let init := ((opt opts "init").map atou).getD 1000
   { cfg := cfg
     b := { ring := Ring.new cache, dealt := init, committed := init }
-    eng := []
+    mem := {}
     ring := Ring.new (((opt opts "cap").map atou).getD 8) }
 
 /-! ### coder suite -/
@@ -81,13 +83,27 @@ def commitLine : Except CommitErr Store → String
   | .error (.conflict none _) => "cf bare nil"
   | .error .notFound => "nf"
 
-def parseBOp (s : String) : Option BOp :=
+/-- the engine suite's store -/
+def SuiteState.eng (st : SuiteState) : Store := st.mem.store
+
+/-- a batch operation with the ttl (seconds) handed to it: optional last field of pine / cas / put -/
+def parseBOp (s : String) : Option (BOp × Nat) :=
   match s.splitOn ":" with
-  | ["pine", k, v] => some (.pine (unhx k) (unhx v))
-  | ["cas", k, n, o] => some (.cas (unhx k) (unhx n) (unhx o))
-  | ["put", k, v] => some (.put (unhx k) (unhx v))
-  | ["del", k] => some (.del (unhx k))
+  | ["pine", k, v] => some (.pine (unhx k) (unhx v), 0)
+  | ["pine", k, v, t] => some (.pine (unhx k) (unhx v), atou t)
+  | ["cas", k, n, o] => some (.cas (unhx k) (unhx n) (unhx o), 0)
+  | ["cas", k, n, o, t] => some (.cas (unhx k) (unhx n) (unhx o), atou t)
+  | ["put", k, v] => some (.put (unhx k) (unhx v), 0)
+  | ["put", k, v, t] => some (.put (unhx k) (unhx v), atou t)
+  | ["del", k] => some (.del (unhx k), 0)
   | _ => none
+
+/-- Every write of the engine suite goes through Commit's loop (KB.MemTTL.commitWrites): a batch whose conditions
+hold, as the list of its operations with their ttl in seconds. One second is 1000 units of the model clock; an
+engine without native ttl ignores it. -/
+def engCommit (st : SuiteState) (ops : List (BOp × Nat)) : SuiteState :=
+  let unit := if st.cfg.q.supportTTL then 1000 else 0
+  { st with mem := MemTTL.step st.mem (.commit (ops.map (fun o => MemTTL.writeOf (o.2 * unit) o.1))) }
 
 def iterStr (l : List (Bytes × Bytes)) : String := joinOr (l.map (fun kv => s!"{hx kv.1}={hx kv.2}")) ","
 
@@ -102,15 +118,22 @@ def hex16 (n : Nat) : String :=
 
 def digestHex (strs : List String) : String := hex16 (fnv64 strs)
 
-def stepEngine (st : SuiteState) (toks : List String) : SuiteState × String :=
+/-- Time in the engine suite: `sleep <ms>` advances the model clock by `ms`; before EVERY operation all timers whose
+deadline has come fire (`MemTTL.fireDue`). Real timers fire "soon after" their deadline and real operations take
+a little time: the scripts keep at least 250 ms between every operation and every armed deadline, so that at every
+operation exactly the timers the model has fired have really fired. -/
+def stepEngine (st0 : SuiteState) (toks : List String) : SuiteState × String :=
+  let st := { st0 with mem := MemTTL.fireDue st0.mem }
   let q := st.cfg.q
   let (pos, opts) := parseOpts toks
   match pos with
   | "batch" :: ops =>
-    let r := commit q st.eng (ops.filterMap parseBOp)
+    let bops := ops.filterMap parseBOp
+    let r := commit q st.eng (bops.map (·.1))
     match r with
-    | .ok s' => ({ st with eng := s' }, s!"batch {commitLine r}")
+    | .ok _ => (engCommit st bops, s!"batch {commitLine r}")
     | .error _ => (st, s!"batch {commitLine r}")
+  | ["sleep", ms] => ({ st with mem := MemTTL.step st.mem (.advance (atou ms)) }, "slept")
   | ["bigbatch", _, _] =>
     -- one batch whose last operation fails its condition: all or nothing (`commit` is `Except`-valued: a failed
     -- batch returns no store at all), whatever its size
@@ -120,14 +143,15 @@ def stepEngine (st : SuiteState) (toks : List String) : SuiteState × String :=
     | some v => (st, s!"get {hx v}")
     | none => (st, "get nf")
   | ["iter", a, b, lim] => (st, s!"iter {iterStr (iterate q st.eng (unhx a) (unhx b) (atou lim))}")
-  | ["del", k] => ({ st with eng := st.eng.erase (unhx k) }, "del ok")
+  | ["del", k] => (engCommit st [(.del (unhx k), 0)], "del ok")
   | ["itdel", a, b, n] =>
     match (iterate q st.eng (unhx a) (unhx b) 0)[atou n]? with
     | none => (st, "itdel eof")
     | some (k, v) =>
-      let eng := match opt opts "rewrite" with
-        | some rw => st.eng.put k (unhx rw)
-        | none => st.eng
+      let st1 := match opt opts "rewrite" with
+        | some rw => engCommit st [(.put k (unhx rw), 0)]
+        | none => st
+      let eng := st1.eng
       -- badger compares versions: a rewrite (even with the same bytes) fails the delete
       let r := match opt opts "rewrite" with
         | some _ => if q.delCurBareCas then commit q eng [.delcur k v]   -- memkv compares values
@@ -135,22 +159,22 @@ def stepEngine (st : SuiteState) (toks : List String) : SuiteState × String :=
                     else commit q eng [.delcur k v]                       -- tikv compares values
         | none => commit q eng [.delcur k v]
       match r with
-      | .ok s' => ({ st with eng := s' }, s!"itdel {hx k} {commitLine r}")
-      | .error _ => ({ st with eng := eng }, s!"itdel {hx k} {commitLine r}")
+      | .ok _ => (engCommit st1 [(.delcur k v, 0)], s!"itdel {hx k} {commitLine r}")
+      | .error _ => (st1, s!"itdel {hx k} {commitLine r}")
   | ["load", n, p, v] =>
-    let eng := (List.range (atou n)).foldl (fun e i =>
-      e.put (unhx p ++ [48 + i / 1000 % 10, 48 + i / 100 % 10, 48 + i / 10 % 10, 48 + i % 10]) (unhx v)) st.eng
-    ({ st with eng := eng }, "load ok")
+    let st' := (List.range (atou n)).foldl (fun e i =>
+      engCommit e [(.put (unhx p ++ [48 + i / 1000 % 10, 48 + i / 100 % 10, 48 + i / 10 % 10, 48 + i % 10]) (unhx v), 0)]) st
+    (st', "load ok")
   | "iterw" :: a :: b :: _k :: ops =>
     -- the iterator reads from the snapshot taken when it was created; the batch lands afterwards
     let elems := iterate q st.eng (unhx a) (unhx b) 0
-    let eng := ops.foldl (fun e op =>
+    let st' := engCommit st (ops.filterMap (fun op =>
       match op.splitOn ":" with
-      | ["put", k, v] => e.put (unhx k) (unhx v)
-      | ["del", k] => e.erase (unhx k)
-      | _ => e) st.eng
+      | ["put", k, v] => some (.put (unhx k) (unhx v), 0)
+      | ["del", k] => some (.del (unhx k), 0)
+      | _ => none))
     let strs := elems.map (fun kv => s!"{hx kv.1}={hx kv.2}")
-    ({ st with eng := eng }, s!"iterw n={strs.length} digest={digestHex strs}")
+    (st', s!"iterw n={strs.length} digest={digestHex strs}")
   | ["dump"] => (st, s!"dump {dumpStr st.eng}")
   | ["parts", a, b] =>
     let ps := partitions st.cfg.splits (unhx a) (unhx b)
@@ -232,9 +256,13 @@ def stepBackend (st : SuiteState) (toks : List String) : SuiteState × String :=
   let (pos, opts) := parseOpts toks
   match pos with
   | ["create", k, v] =>
+    -- `backend.Create` / `backend.Update` refuse a write without a value before a revision is dealt
+    -- (txn.go `errEmptyValue`, /repo f2a549c; the same rule as `KB.Etcd.runCall`): nothing changes
+    if (unhx v).isEmpty then (st, "create err other") else
     let (r, b) := doCreate c st.b (unhx k) (unhx v) (parseFaults opts)
     ({ st with b := b }, writeLine "create" r)
   | ["update", k, v, e] =>
+    if (unhx v).isEmpty then (st, "update err other") else
     let (r, b) := doUpdate c st.b (unhx k) (unhx v) (atou e) (parseFaults opts)
     ({ st with b := b }, writeLine "update" r)
   | ["delete", k, e] =>
